@@ -104,20 +104,19 @@ Qed.
 
 (* ------------------------------------------------------------------ C16: balances and limits *)
 
+Lemma ins_ks_total k a acc : tsum (map snd (ins_ks k a acc)) = tsum (map snd acc) + a.
+Proof.
+  induction acc as [|[k' a'] t IHt]; cbn [ins_ks map tsum fold_right snd]; [lia|].
+  destruct (k =? k'); cbn [map tsum fold_right snd]; fold (tsum (map snd t)) in *; [lia|].
+  fold (tsum (map snd (ins_ks k a t))). rewrite IHt. lia.
+Qed.
+
 Lemma sum_by_ks_total l : forall acc,
   tsum (map snd (sum_by_ks l acc)) = tsum (map snd acc) + tsum (map snd l).
 Proof.
-  induction l as [|[k a] r IH]; intros acc; cbn [sum_by_ks map tsum fold_right snd]; [lia|].
-  rewrite IH. fold (tsum (map snd r)).
-  assert (H : forall acc0, tsum (map snd ((fix ins (acc1 : list (Z * Z)) : list (Z * Z) :=
-              match acc1 with
-              | [] => [(k, a)]
-              | (k', a') :: t => if k =? k' then (k', a' + a) :: t else (k', a') :: ins t
-              end) acc0)) = tsum (map snd acc0) + a).
-  { induction acc0 as [|[k' a'] t IHt]; cbn [map tsum fold_right snd]; [lia|].
-    destruct (k =? k'); cbn [map tsum fold_right snd]; fold (tsum (map snd t)) in *; [lia|].
-    rewrite IHt. lia. }
-  rewrite H. lia.
+  induction l as [|[k a] r IH]; intros acc; cbn [sum_by_ks map snd].
+  - change (tsum (@nil Z)) with 0. lia.
+  - rewrite IH, ins_ks_total. change (tsum (a :: map snd r)) with (a + tsum (map snd r)). lia.
 Qed.
 
 Definition issued_total (d : db) : Z := tsum (map s_amount (d_sigs d)).
@@ -132,20 +131,24 @@ Theorem redeemed_view_total d :
   tsum (map snd (sum_by_ks (map (fun r => (r_ks r, r_amount r)) (d_spent d)) [])) = redeemed_total d.
 Proof. rewrite sum_by_ks_total. cbn [map tsum fold_right]. rewrite map_map. reflexivity. Qed.
 
+Lemma tsum_nil : tsum [] = 0. Proof. reflexivity. Qed.
+Lemma tsum_cons x l : tsum (x :: l) = x + tsum l. Proof. reflexivity. Qed.
+
+Lemma tsum_nonneg l : Forall (fun x => 0 <= x) l -> 0 <= tsum l.
+Proof. intros H. induction H; [rewrite tsum_nil; lia|rewrite tsum_cons; lia]. Qed.
+
 Lemma sum64_small l : Forall (fun x => 0 <= x) l -> tsum l < two64 -> sum64 l = tsum l.
 Proof.
   unfold sum64. intros Hall Hlt.
   assert (G : forall l acc, Forall (fun x => 0 <= x) l -> 0 <= acc -> acc + tsum l < two64 -> fold_left add64 l acc = acc + tsum l).
-  { clear. induction l as [|x r IH]; intros acc Hall Hacc Hlt; cbn [fold_left tsum fold_right]; [lia|].
-    inversion Hall; subst. fold (tsum r) in *.
-    assert (Hr : 0 <= tsum r). { clear - H2. induction H2; cbn [tsum fold_right]; [lia|fold (tsum l); lia]. }
-    assert (Hs : add64 acc x = acc + x) by (unfold add64; apply Z.mod_small; lia).
-    rewrite Hs. rewrite IH; [lia|assumption|lia|lia]. }
+  { clear. induction l as [|x r IH]; intros acc Hall Hacc Hlt; cbn [fold_left].
+    - rewrite tsum_nil. lia.
+    - rewrite tsum_cons in *. inversion Hall; subst.
+      assert (Hr : 0 <= tsum r) by (apply tsum_nonneg; assumption).
+      assert (Hs : add64 acc x = acc + x) by (unfold add64; apply Z.mod_small; unfold two64 in *; lia).
+      rewrite Hs. rewrite IH; [lia|assumption|lia|lia]. }
   rewrite G; [lia|assumption|lia|lia].
 Qed.
-
-Lemma tsum_nonneg l : Forall (fun x => 0 <= x) l -> 0 <= tsum l.
-Proof. intros H. induction H; cbn [tsum fold_right]; [lia|fold (tsum l); lia]. Qed.
 
 (* TotalBalance is issued - redeemed, exactly, whenever the totals fit 64 bits and redeemed <= issued *)
 Theorem total_balance_exact w :
@@ -161,13 +164,16 @@ Proof.
   set (rv := map snd (sum_by_ks (map (fun r => (r_ks r, r_amount r)) (d_spent d)) [])) in *.
   assert (Hrn : 0 <= redeemed_total d) by (apply tsum_nonneg; exact Hr).
   (* the views hold non-negative entries because the rows do; their wrapped sums equal their true sums *)
+  assert (Hins : forall k a acc, 0 <= a -> Forall (fun x => 0 <= x) (map snd acc) ->
+                                Forall (fun x => 0 <= x) (map snd (ins_ks k a acc))).
+  { clear. intros k a acc Ha0. induction acc as [|[k' a'] t IHt]; intros Ha; cbn [ins_ks map snd].
+    - constructor; [assumption|constructor].
+    - cbn [map snd] in Ha. inversion Ha; subst.
+      destruct (k =? k'); cbn [map snd]; constructor; try lia; auto. }
   assert (Hnn : forall l acc, Forall (fun x => 0 <= x) (map snd l) -> Forall (fun x => 0 <= x) (map snd acc) ->
                               Forall (fun x => 0 <= x) (map snd (sum_by_ks l acc))).
-  { clear. induction l as [|[k a] r IH]; intros acc Hl Ha; cbn [sum_by_ks]; [exact Ha|].
-    cbn [map snd] in Hl. inversion Hl; subst. apply IH; [assumption|].
-    clear - Ha H1. induction acc as [|[k' a'] t IHt]; cbn [map snd]; [constructor; [assumption|constructor]|].
-    cbn [map snd] in Ha. inversion Ha; subst.
-    destruct (k =? k'); cbn [map snd]; constructor; try lia; auto. }
+  { clear - Hins. induction l as [|[k a] r IH]; intros acc Hl Ha; cbn [sum_by_ks]; [exact Ha|].
+    cbn [map snd] in Hl. inversion Hl; subst. apply IH; [assumption|]. apply Hins; assumption. }
   assert (Hiv : Forall (fun x => 0 <= x) iv).
   { apply Hnn; [rewrite map_map; cbn [snd]; exact Hs|constructor]. }
   assert (Hrv : Forall (fun x => 0 <= x) rv).
